@@ -300,6 +300,131 @@ def classify_arr(info, out):
     return (f"{cls}:lost-job:arrayer-mode", f"job(s) {lost} submitted but never reported with job arraying on; final {o}")
 
 
+# ---------------------------------------------------------------------------------------------------
+# Multi-wave histories at phase granularity (Model/GlueWaves.v): no thread is preempted inside a phase
+# (one whole _submit(); a submission thread until it returns; one monitor loop iteration or its whole way
+# out), runs stay in flight until the history completes them.  Actions: ("S",) ("T", thread) ("C", job).
+# ---------------------------------------------------------------------------------------------------
+WAVE_WITNESS = [("S",), ("S",), ("T", "U0"), ("C", 0), ("T", "M0"), ("S",)]   # A,B; drain+exit; A done; C while B runs
+
+
+def execute_waves(key, info, njobs, kind, actions, rng=None, nrandom=0):
+    winfo = dict(info, waves=True)
+    out = Outcome(key, njobs, kind, [])
+    out.macro = []      # (action, observation after it)
+    out.stuck = False
+    run = D.Run(key, winfo, REPO, njobs)
+    guard = set(info["lines"].get("guard", []))
+    insert_lines = set(info["lines"].get("insert", []))
+    try:
+        def live(name):
+            return name in run.det.recs and run.det.recs[name].status != "done"
+
+        def step(name):
+            status, o = run.step(name)
+            out.history.append((name, status, o))
+            return status
+
+        def phase(name):
+            rec = run.det.recs[name]
+            for _ in range(300):
+                if not live(name):
+                    break
+                st = step(name)
+                if st == "blocked" or rec.status == "done":
+                    break
+                if name == "S" and (rec.pos[0] == "lock" or (rec.pos[0] == "line" and rec.pos[1] in insert_lines)):
+                    break
+                if name[0] == "M" and (rec.pos[0] == "lock" or (rec.pos[0] == "line" and rec.pos[1] in guard)):
+                    break
+
+        def act(a):
+            if a[0] == "S":
+                if not live("S"):
+                    return False
+                phase("S")
+            elif a[0] == "T":
+                if not live(a[1]):
+                    return False
+                phase(a[1])
+            else:
+                o = run.ad.observe()
+                if a[1] in run.ad.finished or a[1] not in o["tracked"]:
+                    return False
+                run.ad.complete(a[1])
+            out.macro.append((a, run.ad.observe()))
+            out.sched.append("S" if a[0] == "S" else a[1] if a[0] == "T" else f"complete({a[1]})")
+            return True
+
+        for a in actions:
+            act(tuple(a))
+        for _ in range(nrandom):
+            o = run.ad.observe()
+            cands = [("T", n) for n in run.threads() if n != "S"]
+            cands += [("C", j) for j in o["tracked"] if j not in run.ad.finished]
+            if live("S"):
+                cands += [("S",)] * 2
+            if not cands:
+                break
+            act(rng.choice(cands))
+        # finish: the scheduler thread submits the rest, every run finishes, threads take turns
+        for _ in range(60):
+            if not run.threads():
+                break
+            before = (run.ad.observe(), tuple(run.threads()), frozenset(run.ad.finished))
+            if live("S"):
+                act(("S",))
+            for n in [t for t in run.threads() if t != "S"]:
+                act(("T", n))
+            for j in run.ad.observe()["tracked"]:
+                act(("C", j))
+            if (run.ad.observe(), tuple(run.threads()), frozenset(run.ad.finished)) == before:
+                out.stuck = True      # a whole round of every live thread changed nothing: fixpoint
+                break
+        out.done = run.done()
+        out.live = run.threads()
+        out.final = run.ad.observe()
+    except Exception as e:  # noqa: BLE001
+        out.error = repr(e)
+        out.final = run.ad.observe() if run.ad.ex is not None else None
+    finally:
+        run.close()
+    return out
+
+
+def classify_waves(info, out):
+    cls = info["cls"]
+    o = out.final
+    if out.error:
+        return f"{cls}:harness-error:waves", f"execution under the deterministic scheduler failed: {out.error}"
+    rep = o["reported"]
+    if len(set(rep)) != len(rep):
+        return f"{cls}:reported-twice", f"a job was reported to the scheduler twice: {rep}"
+    if o["err"]:
+        return f"{cls}:monitor-error", "a thread raised and called reject_job(None, error)"
+    lost = [j for j in range(out.njobs) if j not in rep]
+    if lost and (out.done or out.stuck):
+        where = sorted({("tracked" if j in o["tracked"] else "queue" if j in o["queue"] else "vanished") for j in lost})
+        what = ("all executor threads have exited" if out.done else
+                f"threads {out.live} keep polling without any effect (every run has finished)")
+        return (f"{cls}:lost-job:no-preemption:stuck-in-{'+'.join(where)}",
+                f"job(s) {lost} submitted but never reported although no thread was preempted inside a phase "
+                f"(whole submits, submission thread until it returns, whole monitor iterations; runs in flight): left in "
+                f"{'+'.join(where)}; {what}; final state {o}")
+    if not lost and out.done and (o["queue"] or o["tracked"]):
+        return f"{cls}:leftover-at-quiescence", f"all jobs reported but the pending collections are not empty: {o}"
+    return None
+
+
+def cq_gact(a):
+    return "GSubmit" if a[0] == "S" else ("GSub" if a[1][0] == "U" else "GPoll") if a[0] == "T" else f"(GComplete {a[1]})"
+
+
+def cq_gobs(o):
+    return (f"({cq_b(o['flag'])}, {cq_nl(o['queue'])}, {cq_nl(o['tracked'])}, {cq_nl(o['reported'])}, "
+            f"{cq_b(any(o['mons']))}, {cq_b(any(o['subs']))})")
+
+
 class Check(PropertyCheck):
     id = "C10"
     module = "Props.C10"
@@ -308,7 +433,9 @@ class Check(PropertyCheck):
                 "C10_holds_fixed", "C10_fixed_bounded", "C10_fixed_progress", "C10_quiescent_terminal",
                 "C10_counter_exact", "C10_counter_exit_safe", "C10_counter_refuted_unlocked",
                 "C10_counter_locked_never_loses", "C10_arrayer_armed", "C10_arrayer_all_submitted",
-                "C10_arrayer_refuted_clear_in_stop", "C10_arrayer_shipped_never_loses"]
+                "C10_arrayer_refuted_clear_in_stop", "C10_arrayer_shipped_never_loses",
+                "C10_glue_queue_has_submitter", "C10_glue_waves_progress", "C10_glue_waves_quiescent",
+                "C10_glue_refuted_early_return", "C10_glue_shipped_not_stuck"]
     extra_modules = ["Model.Monitor"]
     allowed_axioms = []
     section_premises = []
@@ -345,9 +472,11 @@ class Check(PropertyCheck):
         GEN.mkdir(exist_ok=True)
         p = GEN / "C10Gen.v"
         p.write_text(text + "\n")
+        t = GEN / "C10Tie.v"
+        t.write_text(info["_tie_text"] + "\n")
         for k in KEYS:
             self.stat("variant", f"{k}:{info[k]['variant']}")
-        return [p]
+        return [p, t]
 
     # ------------------------------------------------------------------ executions
     def ensure_info(self):
@@ -360,7 +489,7 @@ class Check(PropertyCheck):
             return self.outcomes
         self.ensure_info()
         outs = []
-        nrand = 24 if self.tier == "quick" else 400
+        nrand = 16 if self.tier == "quick" else 400
         corpus = CORPUS / "C10.jsonl"
         if corpus.exists():
             for line in corpus.read_text().splitlines():
@@ -383,7 +512,7 @@ class Check(PropertyCheck):
             base = execute(key, info, 2, "quiet", [])
             seq = base.sched
             alts = sorted(set(seq))
-            limit = len(seq) if self.tier != "quick" else min(len(seq), 40)
+            limit = len(seq) if self.tier != "quick" else min(len(seq), 26)
             for p in range(1, limit):
                 for alt in alts:
                     if alt != seq[p]:
@@ -392,6 +521,22 @@ class Check(PropertyCheck):
                 n = self.rng.choice([1, 2, 2, 3])
                 outs.append(execute(key, info, n, "random", [], rng=self.rng, max_random=self.rng.choice([10, 25, 60])))
         self.outcomes = outs
+        return outs
+
+    def waves_executions(self):
+        if getattr(self, "wave_outs", None) is not None:
+            return self.wave_outs
+        outs = []
+        nrand = 10 if self.tier == "quick" else 150
+        for key in KEYS:
+            info = self.info[key]
+            outs.append(execute_waves(key, info, 3, "waves-witness", WAVE_WITNESS))
+            outs.append(execute_waves(key, info, 3, "waves-burst", [("S",), ("S",), ("S",)]))
+            outs.append(execute_waves(key, info, 3, "waves-serial", []))
+            for i in range(nrand):
+                outs.append(execute_waves(key, info, self.rng.choice([2, 3, 3, 4]), "waves-random", [], rng=self.rng,
+                                          nrandom=self.rng.choice([5, 10, 20])))
+        self.wave_outs = outs
         return outs
 
     def arr_executions(self):
@@ -519,6 +664,45 @@ class Check(PropertyCheck):
             self.ob("correspondence", "the witness of C10_counter_refuted_unlocked (lost update of num_pending) reproduces on "
                     "the real classes", len(hit) == len(wit) and bool(wit),
                     "; ".join(f"{o.key}: final {o.final} error {o.error}" for o in wit if o not in hit))
+        # ---- multi-wave histories at phase granularity, runs in flight (all five executors)
+        waves = self.waves_executions()
+        for o in waves:
+            n += 1
+            info = self.info[o.key]
+            c = classify_waves(info, o)
+            self.stat("oracle_waves", ("lost" if ":lost-job" in c[0] else "other") if c else
+                      ("all-reported" if o.done else "undecided"))
+            self.stat("waves_kind", f"{o.key}:{o.kind}")
+            self.count((o.key, "waves", o.njobs, tuple(o.sched)))
+            if o.kind == "waves-witness":
+                self.sample({"executor": o.key, "jobs": o.njobs, "kind": o.kind, "history": " ".join(o.sched)}, 8)
+            if c and c[0] not in seen:
+                seen.add(c[0])
+                self.findings.append(Finding(c[0], f"{info['cls']} ({info['file']}): {c[1]}; e.g. {o.njobs} job(s), "
+                                             f"history {' '.join(o.sched)}",
+                                             {"kind": "waves", "executor": o.key, "njobs": o.njobs,
+                                              "actions": [list(a) for a, _ in o.macro], "history": o.sched,
+                                              "final": o.final, "expect": c[0]}))
+        gv = self.info.get("_glue_start")
+        if gv:
+            gl = [o for o in waves if o.key == "aws_glue" and not o.error]
+            terms = [f"gcheck gen_glue_start (ginit {cq_nl(range(o.njobs))}) "
+                     f"[{'; '.join(f'({cq_gact(a)}, {cq_gobs(ob)})' for a, ob in o.macro)}]" for o in gl]
+            ok, failing, diags = run_bool_cases("C10W", ["Model.GlueWaves", "Gen.C10Gen"], "", terms, chunk=60)
+            detail = "\n".join(diags) + "".join(
+                f"\nMISMATCH glue waves jobs={gl[i].njobs} history={' '.join(gl[i].sched)} macro={gl[i].macro}" for i in failing[:3])
+            self.ob("correspondence", f"Glue phase model (Model/GlueWaves.v, variant {gv} from the AST of _start) == real "
+                    f"AWSGlueExecutor on {len(terms)} multi-wave histories (after every phase: is_running, pending queue, "
+                    f"running map, reported, monitor / submission thread alive)", ok and not failing, detail)
+            if gv != "AlwaysCheck":
+                wit = [o for o in gl if o.kind == "waves-witness"]
+                hit = [o for o in wit if (classify_waves(self.info[o.key], o) or ("",))[0].startswith(
+                    "AWSGlueExecutor:lost-job:no-preemption:stuck-in-queue")]
+                self.ob("correspondence", "the witness of C10_glue_refuted_early_return reproduces on the real AWSGlueExecutor",
+                        bool(hit), "; ".join(f"final {o.final} error {o.error}" for o in wit))
+        else:
+            self.ob("correspondence", "Glue _start is one of the two modelled shapes (AlwaysCheck / EarlyReturn)",
+                    self.info["aws_glue"]["locked"], f"ops = {self.info['aws_glue']['ops']}")
         if self.info["_life"] != "ClearInStart":
             wit = [o for o in arr if o.kind.startswith("arr-wave-")]
             hit = [o for o in wit if (classify_arr(self.info[o.key], o) or ("",))[0].endswith("no-arrayer-thread")]
@@ -564,6 +748,14 @@ class Check(PropertyCheck):
             print("replay:", r["executor"], "(job arraying on) jobs", r["njobs"], "schedule", " ".join(o.sched))
             print("replay: final state", o.final, "all threads finished:", o.done)
             print("replay:", f"still fails: {c[0]} - {c[1]}" if c else "property holds on this schedule now")
+            return 1 if c else 0
+        if r.get("kind") == "waves":
+            _, info = tr_monitor.translate()
+            o = execute_waves(r["executor"], info[r["executor"]], r["njobs"], "replay", [tuple(a) for a in r["actions"]])
+            c = classify_waves(info[r["executor"]], o)
+            print("replay:", r["executor"], "jobs", r["njobs"], "phase history", " ".join(o.sched))
+            print("replay: final state", o.final, "all threads finished:", o.done, "live:", o.live)
+            print("replay:", f"still fails: {c[0]} - {c[1]}" if c else "property holds on this history now")
             return 1 if c else 0
         if r.get("kind") == "fallback":
             self.oracle_fallback()
